@@ -9,6 +9,10 @@
         n        : formula.number_of_variables();  F : the clause list in order
         Every header line goes through encode('ascii','replace'): characters
         above 127 become '?' (ascii_replace).  Names of variables are written raw.
+        Every field and name first goes through _within_comment (-> within_comment):
+        "\r\n" and "\r" become "\n", and every "\n" is followed by "c ".
+        print_dimacs_as_found is the writer before commit 7278321 (no _within_comment),
+        kept for the refutation witnesses of Prop_C06.v.
      parse_dimacs(infile) + from_dimacs_file(cls, file)             -> parse_dimacs
         result DOk n F  = formula with update_variable_number(n) and clauses F;
         result Err e k = ValueError raised; e tells which `raise` statement,
@@ -46,14 +50,31 @@ Definition header := list (text * text).
 Definition ascii_replace (s : text) : text :=
   map (fun c => if 127 <? code c then "?"%char else c) s.
 
-(* lines are given without their final "\n"; unlines appends it *)
-Definition header_line (fv : text * text) : text :=
-  ascii_replace (lit "c " ++ fst fv ++ lit ": " ++ snd fv).
+(* ---- the writer as it is now (after the repair of D4, commit 7278321) ---- *)
 
-Fixpoint varname_lines (i : Z) (names : list text) : list text :=
+(* s.replace("\n", "\n" + prefix) *)
+Fixpoint after_lf (prefix s : text) : text :=
+  match s with
+  | [] => []
+  | c :: r => if is_lf c then LF :: prefix ++ after_lf prefix r else c :: after_lf prefix r
+  end.
+
+(* _within_comment(text, prefix):
+     text = text.replace('\r\n', '\n').replace('\r', '\n');  return text.replace('\n', '\n' + prefix)
+   the two replacements of the first statement are exactly `universal` of Text.v
+   (utils/opb.py has an identical copy of this helper) *)
+Definition within_comment (prefix s : text) : text := after_lf prefix (universal s).
+
+(* an ENTRY is what one `output.write(... + "\n")` call writes, without that final
+   "\n"; an entry of the comment part may contain line breaks, each followed by "c " *)
+Definition header_entry (fv : text * text) : text :=
+  ascii_replace (within_comment (lit "c ") (lit "c " ++ fst fv ++ lit ": " ++ snd fv)).
+
+Fixpoint varname_entries (i : Z) (names : list text) : list text :=
   match names with
   | [] => []
-  | nm :: r => (lit "c varname " ++ print_Z i ++ [SP] ++ nm) :: varname_lines (i + 1) r
+  | nm :: r => within_comment (lit "c ") (lit "c varname " ++ print_Z i ++ [SP] ++ nm)
+               :: varname_entries (i + 1) r
   end.
 
 Definition spec_line (n m : Z) : text := lit "p cnf " ++ print_Z n ++ [SP] ++ print_Z m.
@@ -61,15 +82,42 @@ Definition spec_line (n m : Z) : text := lit "p cnf " ++ print_Z n ++ [SP] ++ pr
 Definition clause_line (c : list Z) : text :=
   concat (map (fun l => print_Z l ++ [SP]) c) ++ lit "0".
 
-Definition comment_lines (h : option header) (names : option (list text)) : list text :=
-  (match h with Some h => map header_line h ++ [lit "c"] | None => [] end) ++
-  (match names with Some ns => varname_lines 1 ns ++ [lit "c"] | None => [] end).
+Definition comment_entries (h : option header) (names : option (list text)) : list text :=
+  (match h with Some h => map header_entry h ++ [lit "c"] | None => [] end) ++
+  (match names with Some ns => varname_entries 1 ns ++ [lit "c"] | None => [] end).
 
-Definition print_lines (h : option header) (names : option (list text)) (n : Z) (F : cnf) : list text :=
-  comment_lines h names ++ [spec_line n (len F)] ++ map clause_line F.
+Definition print_entries (h : option header) (names : option (list text)) (n : Z) (F : cnf) : list text :=
+  comment_entries h names ++ [spec_line n (len F)] ++ map clause_line F.
 
 Definition print_dimacs (h : option header) (names : option (list text)) (n : Z) (F : cnf) : text :=
-  unlines (print_lines h names n F).
+  unlines (print_entries h names n F).
+
+(* the lines of the comment part, as a reader of the text finds them (an entry
+   with k line breaks gives k+1 of them) *)
+Definition comment_lines (h : option header) (names : option (list text)) : list text :=
+  split_lines (unlines (comment_entries h names)).
+
+(* ---- the writer as it was found (before 7278321): fields copied verbatim ---- *)
+
+(* lines are given without their final "\n"; unlines appends it *)
+Definition header_line_as_found (fv : text * text) : text :=
+  ascii_replace (lit "c " ++ fst fv ++ lit ": " ++ snd fv).
+
+Fixpoint varname_lines_as_found (i : Z) (names : list text) : list text :=
+  match names with
+  | [] => []
+  | nm :: r => (lit "c varname " ++ print_Z i ++ [SP] ++ nm) :: varname_lines_as_found (i + 1) r
+  end.
+
+Definition comment_lines_as_found (h : option header) (names : option (list text)) : list text :=
+  (match h with Some h => map header_line_as_found h ++ [lit "c"] | None => [] end) ++
+  (match names with Some ns => varname_lines_as_found 1 ns ++ [lit "c"] | None => [] end).
+
+Definition print_lines_as_found (h : option header) (names : option (list text)) (n : Z) (F : cnf) : list text :=
+  comment_lines_as_found h names ++ [spec_line n (len F)] ++ map clause_line F.
+
+Definition print_dimacs_as_found (h : option header) (names : option (list text)) (n : Z) (F : cnf) : text :=
+  unlines (print_lines_as_found h names n F).
 
 (* ------------------------------------------------------------------ *)
 (* reader *)
@@ -198,7 +246,8 @@ Definition spec_lines (ls : list text) : list text := filter is_spec ls.
 Definition lit_in (n l : Z) : Prop := 1 <= Z.abs l <= n.
 Definition valid (n : Z) (F : cnf) : Prop := 0 <= n /\ Forall (Forall (lit_in n)) F.
 
-(* no line break inside a header field or a variable name (both kinds of break) *)
+(* no line break inside a header field or a variable name (both kinds of break):
+   needed by the as-found writer only; under it the two writers agree *)
 Definition no_break (s : text) : bool := forallb (fun c => negb (is_lf c) && negb (is_cr c)) s.
 Definition header_ok (h : option header) : bool :=
   match h with
